@@ -473,6 +473,7 @@ func genCase(t *rapid.T) (Case, error) {
 	}
 	sort.Slice(c.Files, func(i, j int) bool { return c.Files[i].Name < c.Files[j].Name })
 	// sampled by content (rapid integer draws are biased towards small values)
+	c.OutFile = ev.Hash("out", key(c))%3 == 0
 	c.Compile = ev.Hash(key(c))%uint64(ev.EnvInt("VERIF_C18_COMPILE_1_IN", 40)) == 0
 	for f := range g.feat {
 		c.Feat = append(c.Feat, f)
